@@ -324,6 +324,8 @@ def gamma4(tier, seed):
         ("only", [{"$not": ["a"]}]),
     ):
         out.append({"id": f"g4/operand/{pos}", "doc": doc_of([{"mov": ops}, "call"]), "feature": "not_operand"})
+    for nm, ops in (("not_in_or", [{"$or": [{"$not": ["a"]}, "b"]}, "c"]), ("not_in_and", [{"$and": [{"$not": ["a"]}, "b"]}]), ("not_in_anyorder", [{"$and_any_order": [{"$not": ["a"]}, "b"]}])):
+        out.append({"id": f"g4/operand_nested/{nm}", "doc": doc_of([{"mov": ops}, {"$not": ["call"]}, "call"]), "feature": "not_operand_nested"})
     for nm, arg in (("or", {"$or": ["a", "b"]}), ("notnot", {"$not": ["a"]}), ("and_any", {"$and_any_order": ["a"]})):
         out.append({"id": f"g4/operand_group/{nm}", "doc": doc_of([{"mov": [{"$not": [arg]}, "c"]}, "call"]), "feature": "not_operand_group"})
     with_twin(out[1], out[1]["doc"]["pattern"])
@@ -370,6 +372,8 @@ def gamma7(tier, seed):
         ops = ["a", "b", "c", "d"][:k]
         out.append({"id": f"g7/nops/{k}", "doc": doc_of([item("mov", ops), "call"]), "feature": "operand_count", "lemmas": L})
         out.append({"id": f"g7/nops/{k}/fm", "doc": doc_of([item("mov", ops), "call"], True, True), "feature": "operand_count", "lemmas": L})
+    for nm, arg in (("or", {"$or": ["rax", "rbx"]}), ("and_any", {"$and_any_order": ["rax"]})):
+        out.append({"id": f"g7/operand_not_group/{nm}", "doc": doc_of([{"imul": [{"$not": [arg]}, "rdx"]}, "ret"]), "feature": "not_operand_group", "lemmas": L})
     # the shipped @any wildcard
     try:
         shipped = load_shipped_macros()
